@@ -4,6 +4,7 @@ C12 — Tanimoto, centroid, medoid and bit-packing primitives are exact.
 import BBProofs.Bits
 import BBProofs.Fl
 import BBProofs.RefPolicy
+import BBProofs.GenEq
 
 namespace BB
 
@@ -107,5 +108,22 @@ theorem C12_dissim (Y : List Row) (hne : Y ≠ []) :
 /-! Non-vacuity. -/
 example : jtPacked (pack [true, true, false, false, true, false, false, false, true])
     (pack [true, false, false, false, true, false, false, false, false]) = rnd (2 / 4) := by decide +kernel
+
+/-! ## The same for the code itself
+
+`BBGen.*` is the Lean text `tools/py2lean.py` wrote from the Python sources on this run; `PV` is the
+Python / NumPy value algebra of `BBModel/PyNum.lean` (see `BBProofs/GenEq.lean`). -/
+
+/-- code: `centroid_from_sum(ls, n, pack=False)` is the majority vote with ties set -/
+theorem C12_code_centroid (expf : Rat → Rat) (w : W) (ls : List Nat) (n : Nat)
+    (hk : ∀ k ∈ ls, k ≤ n) (hn : n < 2 ^ 53) :
+    BBGen.centroid_from_sum expf (PV.arr w ls) (PV.int n) (PV.bool false)
+      = PV.arr .u8 (rowToNat (centroidFromSum ls n)) := gen_centroid_unpacked expf w ls n hk hn
+
+/-- code: `centroid_from_sum(ls, n)` (packed) is `np.packbits` of the same bits -/
+theorem C12_code_centroid_packed (expf : Rat → Rat) (w : W) (ls : List Nat) (n : Nat)
+    (hk : ∀ k ∈ ls, k ≤ n) (hn : n < 2 ^ 53) :
+    BBGen.centroid_from_sum expf (PV.arr w ls) (PV.int n) (PV.bool true)
+      = PV.arr .u8 (pack (centroidFromSum ls n)) := gen_centroid_packed expf w ls n hk hn
 
 end BB
